@@ -7,37 +7,65 @@
                    or through a raw stream reader that cuts everything the server wrote into
                    certificates (via = "raw")
      ClientScript  the real Client against a scripted responder that sends the logged items
+   Requests served while the store advances (driver: TestServeConc) are logged as separate events, in the order
+   in which they happened (the recorder is shared by the request goroutine, the datastore hook and the writer):
+     Req           a request is sent (first, limit, pt; via; hook position k = the datastore read of this request
+                   at which the hook performs nput certstore.Put calls, 0 = none / free-running writer)
+     PutBegin      certstore.Put(certificate of instance inst) is about to be called (encoding, next power table)
+     PutEnd        that Put returned
+     Resp          the response as read by the real Client / the raw stream reader
+   PutBegin/PutEnd are CertExchange!PutWrite/PutCommit; the response is compared with the step-wise request of
+   CertExchange.tla run with the header value bound to the observed one (ServeAt; MCCertExchangeConc checks that
+   the interleaving cannot matter otherwise).
    The observation is bound to `obs`; C16_* clauses compare it with the model (VIOLATION),
    Conf_* clauses say the code still behaves like the implementation-shaped spec (drift).       *)
 EXTENDS CertExchange, Json, TLC, TLCExt
 CONSTANT TraceFile
-VARIABLES l, store, obs, bad
-tvars == <<l, store, obs, bad>>
+VARIABLES l, store, obs, bad, q
+tvars == <<l, store, obs, bad, q>>
 
 TraceLog == ndJsonDeserialize(TraceFile)
 Ev == TraceLog[l]
 NoObs == [kind |-> "none"]
 IsEvent(e) == l <= Len(TraceLog) /\ TraceLog[l].ev = e /\ l' = l + 1
 
-TInit == l = 1 /\ store = [first |-> 0, certs |-> <<>>, tables |-> <<NoTable>>] /\ obs = NoObs /\ bad = {}
+NoReq == [active |-> FALSE, r |-> [first |-> 0, limit |-> 0, pt |-> FALSE], plo |-> 0, via |-> "", k |-> 0]
+TInit == l = 1 /\ store = [first |-> 0, certs |-> <<>>, tables |-> <<NoTable>>, lat |-> 0] /\ obs = NoObs /\ bad = {} /\ q = NoReq
 
 TrStore == /\ IsEvent("Store")
-           /\ store' = [first |-> Ev.first, certs |-> Ev.certs, tables |-> Ev.tables]
-           /\ obs' = [kind |-> "Store", pending |-> Ev.pending]
-TrServe == /\ IsEvent("Serve") /\ UNCHANGED store
+           /\ store' = [first |-> Ev.first, certs |-> Ev.certs, tables |-> Ev.tables, lat |-> Len(Ev.certs)]
+           /\ obs' = [kind |-> "Store", pending |-> Ev.pending] /\ q' = NoReq
+TrServe == /\ IsEvent("Serve") /\ UNCHANGED <<store, q>>
            /\ obs' = [kind |-> "Serve", via |-> Ev.via, trail |-> Ev.trail,
                       req |-> [first |-> Ev.first, limit |-> Ev.limit, pt |-> Ev.pt],
                       o |-> [ok |-> Ev.ok, pending |-> Ev.pending, table |-> Ev.table, certs |-> Ev.certs, insts |-> Ev.insts]]
 TrClientScript ==
-           /\ IsEvent("ClientScript") /\ UNCHANGED store
+           /\ IsEvent("ClientScript") /\ UNCHANGED <<store, q>>
            /\ obs' = [kind |-> "CS", req |-> [first |-> Ev.first, limit |-> Ev.limit, pt |-> Ev.pt],
                       sent |-> [i \in DOMAIN Ev.sent |-> [inst |-> Ev.sent[i].inst, enc |-> Ev.sent[i].enc,
                                                           dec |-> Ev.sent[i].kind \notin {"O", "T"}]],
                       ok |-> Ev.ok, pend |-> Ev.pend, pending |-> Ev.pending, got |-> Ev.got, ginsts |-> Ev.ginsts]
-TNext == TrStore \/ TrServe \/ TrClientScript
+\* ---- requests on a concurrently advancing store
+TrPutBegin == /\ IsEvent("PutBegin") /\ UNCHANGED q
+              /\ store' = PutWrite(store, Ev.enc, Ev.ntab)
+              /\ obs' = [kind |-> "PutBegin", seq |-> (PutWriteEnabled(store) /\ Ev.inst = store.first + Len(store.certs))]
+TrPutEnd == /\ IsEvent("PutEnd") /\ UNCHANGED q
+            /\ store' = PutCommit(store)
+            /\ obs' = [kind |-> "PutEnd", seq |-> (~PutWriteEnabled(store) /\ Ev.pending = PendingHi(store))]
+TrReq == /\ IsEvent("Req") /\ UNCHANGED store
+         /\ q' = [active |-> TRUE, r |-> [first |-> Ev.first, limit |-> Ev.limit, pt |-> Ev.pt], plo |-> PendingLo(store), via |-> Ev.via, k |-> Ev.k]
+         /\ obs' = [kind |-> "Req", seq |-> ~q.active]
+TrResp == /\ IsEvent("Resp") /\ UNCHANGED store /\ q' = NoReq
+          /\ obs' = [kind |-> "Resp", via |-> q.via, trail |-> Ev.trail, req |-> q.r, seq |-> q.active,
+                     plo |-> q.plo, phi |-> PendingHi(store),
+                     o |-> [ok |-> Ev.ok, pending |-> Ev.pending, table |-> Ev.table, certs |-> Ev.certs, insts |-> Ev.insts],
+                     m |-> ServeAt(Visible(store), q.r, Ev.pending)]
+TNext == TrStore \/ TrServe \/ TrClientScript \/ TrPutBegin \/ TrPutEnd \/ TrReq \/ TrResp
 
 \* ------------------------------------------------------------------ property monitors (C16)
-Served == obs.kind = "Serve" /\ obs.o.ok
+\* (for a Resp the store is the one at the time the response has been read: certificates are immutable, so
+\*  "the serving node's stored certificates" are those of the grown store)
+Served == obs.kind \in {"Serve", "Resp"} /\ obs.o.ok
 C16_ExactSlice == Served => ExactSlice(store, obs.req, obs.o)
 C16_AtMostLimit == Served => AtMostLimit(obs.req, obs.o)
 C16_BelowPending == Served => BelowPending(obs.o)
@@ -51,17 +79,27 @@ Conf_StorePending == obs.kind = "Store" => obs.pending = Pending(store)
 Conf_ServeExact == obs.kind = "Serve" => /\ obs.o.ok = Serve(store, obs.req).ok
                                          /\ Complete(store, obs.req, obs.o)
                                          /\ obs.trail = 0
+\* response to a request on an advancing store: the header value lies between the pending instance when the request
+\* was sent and the one when the response had been read, and everything else is ServeAt(store, r, header value)
+Conf_RespExact == obs.kind = "Resp" => /\ obs.seq /\ obs.trail = 0
+                                       /\ ~obs.o.ok => \E p \in obs.plo..obs.phi : ServeFailsAt(Visible(store), obs.req, p)
+                                       /\ obs.o.ok => /\ obs.m.ok
+                                                       /\ obs.plo <= obs.o.pending /\ obs.o.pending <= obs.phi
+                                                       /\ obs.o.certs = obs.m.certs /\ obs.o.table = obs.m.table
+                                                       /\ Len(obs.o.certs) <= Cap
+Conf_PutSeq == obs.kind \in {"PutBegin", "PutEnd", "Req"} => obs.seq
 Conf_ClientPrefix == obs.kind = "CS" => LET acc == ClientAccept(obs.req, obs.sent) IN
                                         /\ obs.ok /\ obs.pending = obs.pend
                                         /\ obs.got = [i \in DOMAIN acc |-> acc[i].enc]
 
 Clauses == {"C16_ExactSlice", "C16_AtMostLimit", "C16_BelowPending", "C16_PowerTable", "C16_ClientRejectsOutOfSequence",
-            "Conf_StorePending", "Conf_ServeExact", "Conf_ClientPrefix"}
+            "Conf_StorePending", "Conf_ServeExact", "Conf_ClientPrefix", "Conf_RespExact", "Conf_PutSeq"}
 Holds(c) == CASE c = "C16_ExactSlice" -> C16_ExactSlice [] c = "C16_AtMostLimit" -> C16_AtMostLimit
               [] c = "C16_BelowPending" -> C16_BelowPending [] c = "C16_PowerTable" -> C16_PowerTable
               [] c = "C16_ClientRejectsOutOfSequence" -> C16_ClientRejectsOutOfSequence
               [] c = "Conf_StorePending" -> Conf_StorePending [] c = "Conf_ServeExact" -> Conf_ServeExact
               [] c = "Conf_ClientPrefix" -> Conf_ClientPrefix
+              [] c = "Conf_RespExact" -> Conf_RespExact [] c = "Conf_PutSeq" -> Conf_PutSeq
 TStep == /\ TNext
          /\ LET nb == {c \in Clauses : ~(Holds(c))'} IN
               /\ bad' = bad \cup {<<l, c>> : c \in nb}
